@@ -96,8 +96,17 @@ def add_loose(s, t):
 def normalize_sizes(s, tn):
     """after a fusion a pool label can carry a fused dimension: give such bonds a fresh harness name so that the pool
     labels keep their fixed sizes (otherwise a later add of a pool tensor is a user-level size clash)"""
+    mine = {id(t) for t in tn.tensor_map.values()}
+    elsewhere = {}
+    for t in all_tensors(s):
+        if id(t) not in mine:
+            for ix, d in zip(t.inds, t.shape):
+                elsewhere.setdefault(ix, d)
     for ix in list(tn.ind_map):
-        if ix in SIZES and tn.ind_size(ix) != SIZES[ix]:
+        d = tn.ind_size(ix)
+        # the fused bond keeps the name of one of the fused labels: a pool label must keep its fixed size, and a
+        # library-generated label that is still in use elsewhere at its old size must not clash with it later
+        if (ix in SIZES and d != SIZES[ix]) or (ix in elsewhere and elsewhere[ix] != d):
             s.counter += 1
             tn.reindex_({ix: f"fz{s.counter}"})
 
@@ -669,6 +678,8 @@ def op_squeeze(s, a):
                 s.shared_touch = True
         if fuse and inplace and any(len(owners_of(s, t)) >= 2 for t in tn.tensor_map.values()):
             fuse = False  # same user-level size clash as fuse_multibonds on shared tensors
+        if fuse and any(tensor_has_repeat(t) for t in tn.tensor_map.values()):
+            fuse = False  # see op_fuse: fusing a label repeated on one tensor is outside Tensor.fuse's contract
         if inplace:
             tn.squeeze_(fuse=fuse)
             if fuse:
@@ -719,6 +730,10 @@ def op_fuse(s, a):
         # another network in which that label still connects to unfused tensors (user-level size clash otherwise)
         if any(len(owners_of(s, t)) >= 2 for t in tn.tensor_map.values()):
             raise Reject("fuse_multibonds on tensors shared with another network")
+        if any(tensor_has_repeat(t) for t in tn.tensor_map.values()):
+            # Tensor.fuse of a label held twice by the tensor is outside its contract (like transpose / permute): it either
+            # refuses or leaves that tensor with one label at two sizes - the same user-level misuse as in op_fuse below
+            raise Reject("fuse_multibonds with a label repeated on one tensor")
         tn.fuse_multibonds_()
         normalize_sizes(s, tn)
     else:
